@@ -66,6 +66,17 @@ def make_batch(rng):
         # reads a key that only the --input-parameters document provides (when the batch has one): every pair must see it
         lines.append("rule rp {\n    zp == %s or zp !exists\n    zp exists or %s exists\n}" % (gen.glit(rng.choice(vals)), k1))
         rules.append("\n".join(lines) + "\n")
+    if rng.random() < 0.35:
+        # documents of different shapes in one run: some are CloudFormation templates (a `Resources` map), some plain settings files; how a pair
+        # is rendered on the console depends on that pair's document only
+        with_res = [rng.random() < 0.5 for _ in docs]
+        with_res[rng.randrange(len(docs))] = True
+        if all(with_res):
+            with_res[rng.randrange(len(docs))] = False
+        for d, wr in zip(docs, with_res):
+            if wr:
+                d["Resources"] = {"bucket%d" % k_: {"Type": "AWS::S3::Bucket", "Properties": {"Enc": rng.choice([True, False, False])}} for k_ in range(rng.randint(1, 2))}
+        rules[0] += "rule res_enc {\n    Resources.*.Properties.Enc == true <<buckets are encrypted>>\n}\n"
     if rng.random() < 0.4:
         # a last rules file that every document satisfies: the run as a whole still fails iff some earlier pair fails
         rules.append("rule zz_always {\n    this exists\n    m exists or l exists\n}\n")
@@ -253,6 +264,33 @@ def shard(ctx):
                             ctx.violation("plain-console:block-status", "the summary headers of the batch read %s, the pairs validated alone are %s" % (heads, exp_h), dict(base_case, mode="plain-console", order=[a, b]))
                         else:
                             ctx.res.distinct.add(("plain-console", tuple(sorted(set(heads)))))
+                        if heads == exp_h and any("Resources" in d_ for d_ in docs) and not any("Resources" in d_ for d_ in docs[:0]):
+                            # documents of mixed shapes: the whole console block of every pair equals the console output of the pair validated alone
+                            def norm_console(t_):
+                                t_ = re.sub(r"\x1b\[[0-9;]*m", "", t_)
+                                t_ = re.sub(r"\S*/(r\d+\.guard)", r"\1", t_)
+                                return [l_.rstrip() for l_ in t_.split("\n") if l_.strip()]
+
+                            def bag(ls_):
+                                # C05 allows independent detail lines of console output to come in any order: compare the blocks as multisets of lines
+                                return sorted(ls_)
+                            lines_ = norm_console(rc_["out"])
+                            starts = [k_ for k_, l_ in enumerate(lines_) if re.match(r"^.* Status = (PASS|FAIL|SKIP)$", l_)]
+                            blocks = [lines_[s_:e_] for s_, e_ in zip(starts, starts[1:] + [len(lines_)])]
+                            pairs_ = [(i, j) for i in a for j in b]
+                            for (i, j), blk in zip(pairs_, blocks):
+                                fl1 = dict(PF, **{"r%d.guard" % i: rules[i], "data/" + DN(j): dtexts[j]})
+                                r1_ = ctx.w.run({"k": "cli", "argv": ["validate", "-r", "{S}/r%d.guard" % i, "-d", "{S}/data/" + DN(j)] + IT + ["-S", "all"], "files": fl1})
+                                ctx.res.cases += 1
+                                if r1_.get("r") != "ok":
+                                    continue
+                                alone = norm_console(r1_["out"])
+                                ctx.res.counts["console_blocks_compared"] += 1
+                                if bag(alone) != bag(blk):
+                                    diff_ = [x for x in blk if x not in alone][:2] + ["<>"] + [x for x in alone if x not in blk][:2]
+                                    ctx.violation("plain-console:block-text", "the console block of (r%d, %s) in the batch differs from the pair validated alone: %s" % (i, DN(j), diff_),
+                                                  dict(base_case, mode="plain-console", order=[a, b]))
+                                    break
             # structured mode: one report per data file = union over the rules files
             r = ctx.w.run({"k": "cli", "argv": ["validate"] + rargs + dargs + IT + ["--structured", "-S", "none", "-o", "json"], "files": fl, "events": True})
             ctx.res.cases += 1
